@@ -370,6 +370,7 @@ def translate(cfg, outdir):
     # ---- implicit (compiler-generated) copy/move assignment `a = b` of a class emitted as a plain C struct: memberwise
     # copy == C struct assignment. Only when clang says every X::operator= it sees is implicit (never for user code).
     implicit_assign = []
+    defaulted_assign = []
     for cn, d in sorted(em.callees.items()):
         if cn.endswith("__operator_assign") and cn not in em.unit_names and d.endswith("::operator=") and cn in em.protos:
             tag = cn[:-len("__operator_assign")]
@@ -383,6 +384,24 @@ def translate(cfg, outdir):
                 implicit_assign.append((cn, tag))
                 del em.callees[cn]
                 del em.protos[cn]
+            elif decls and all(o.get("isImplicit") or o.get("explicitlyDefaulted") == "default" for o in decls) and \
+                    len(em.protos[cn][1]) == 2:
+                # `operator=(..) = default`: memberwise too. A defaulted operator= has no body in clang's AST unless the TU
+                # uses it, so it cannot be listed as a unit. Move assignment = struct assignment (like the extracted
+                # defaulted move constructors); copy assignment deep-copies the container members (like the extracted
+                # defaulted copy constructors); a by-value class member would need its own operator=: refused.
+                kinds = getattr(em, "assign_kinds", {}).get(tag, set())
+                fields = em.structs.get(tag, {})
+                deep = [f for f, ct in fields.items() if ct.startswith(("struct vf_seq_", "struct vf_set_")) and not ct.endswith("*")]
+                nested = [f for f, ct in fields.items() if ct.startswith("struct ") and not ct.endswith("*") and
+                          f not in deep and not ct.startswith("struct vf_pair_") and not ct.startswith("struct vf_opt_")]
+                if kinds and not nested and not em.bases.get(tag):
+                    if "copy" in kinds and deep:
+                        defaulted_assign.append((cn, tag, [(f, fields[f][len("struct "):]) for f in deep]))
+                    else:
+                        implicit_assign.append((cn, tag))
+                    del em.callees[cn]
+                    del em.protos[cn]
 
     # ---- header
     h = [models.COMMON]
@@ -436,6 +455,9 @@ def translate(cfg, outdir):
     for cn, tag in implicit_assign:
         h.append("static inline struct %s* %s(struct %s* a, struct %s* b) { *a = *b; return a; } /* implicit operator= */"
                  % (tag, cn, tag, tag))
+    for cn, tag, deep in defaulted_assign:
+        h.append("static inline struct %s* %s(struct %s* a, struct %s* b) { if (a != b) { *a = *b; %s } return a; } /* defaulted copy operator= */"
+                 % (tag, cn, tag, tag, " ".join("a->%s = %s_copy(&b->%s);" % (f, m, f) for f, m in deep)))
     h.append("static inline void* vf_new_array(size_t n, size_t sz) { void* p = calloc(n, sz); __CPROVER_assume(p != 0); return p; }")
     for cn, v in sorted(em.const_inits.items()):
         h.append("enum { %s = %d }; /* const integral global of the real code, value read from its declaration */" % (cn, v))
